@@ -43,7 +43,6 @@ EXEMPT = {
     ('*', 'pragma'): 'attached pragma metadata', ('*', 'pragma_post'): 'attached pragma metadata',
     ('*', 'comment'): 'inline comment metadata', ('CommentBlock', 'comments'): 'comments',
     ('CallStatement', 'name'): 'names the procedure, no data access',
-    ('CallStatement', 'chevron'): 'CUDA launch configuration (not part of the Fortran data flow modelled here)',
     ('Interface', 'spec'): 'names a generic interface',
     ('ProcedureDeclaration', 'symbols'): 'declares procedure entities', ('ProcedureDeclaration', 'interface'): 'names an interface',
     ('ImplicitStmt', 'text'): 'names entities', ('SaveStmt', 'text'): 'names entities',
